@@ -32,7 +32,9 @@ def run(cmd, cwd, env=None, timeout=600):
 def main():
     prop, n = sys.argv[1], sys.argv[2]
     needs = sys.argv[3] if len(sys.argv) > 3 else ""
-    src = f"/tmp/seed-{prop}/out"
+    prefix = os.environ.get("SEED_PREFIX", "seed")          # round 2 uses /tmp/seed2-Cxx and is stored as Cxx-3, Cxx-4
+    offset = int(os.environ.get("SEED_OFFSET", "0"))
+    src = f"/tmp/{prefix}-{prop}/out"
     patch = os.path.join(src, f"change{n}.diff")
     demo = os.path.join(src, f"demo{n}.py")
     scratch = tempfile.mkdtemp(prefix=f"confirm-{prop}-")
@@ -40,7 +42,7 @@ def main():
         tree = os.path.join(scratch, "repo")
         subprocess.run(["rsync", "-a", "--exclude", ".git", "--exclude", "__pycache__", "/repo/", tree + "/"], check=True)
         # demos refer to their own worktree path: point them at the scratch tree
-        demo_text = open(demo).read().replace(f"/tmp/seed-{prop}", tree)
+        demo_text = open(demo).read().replace(f"/tmp/{prefix}-{prop}/out", scratch).replace(f"/tmp/{prefix}-{prop}", tree)
         demo_local = os.path.join(scratch, "demo.py")
         open(demo_local, "w").write(demo_text)
         env = {"PYTHONPATH": tree}
@@ -49,11 +51,11 @@ def main():
         rct, outt = run([PY, "-m", "pytest", "-q", "-p", "no:cacheprovider", "tests/test_parser.py", "tests/test_types.py"], tree)
         rc1, out1 = run([PY, demo_local], scratch, env)
         ok = rc0 == 0 and rca == 0 and "180 passed" in outt and rc1 != 0
-        print(f"{prop}-{n}: demo on unchanged tree exit {rc0}; patch applies {rca == 0}; tests '{outt.strip().splitlines()[-1] if outt.strip() else ''}'; demo with patch exit {rc1} -> {'CONFIRMED' if ok else 'REJECTED'}")
+        print(f"{prop}-{int(n) + offset}: demo on unchanged tree exit {rc0}; patch applies {rca == 0}; tests '{outt.strip().splitlines()[-1] if outt.strip() else ''}'; demo with patch exit {rc1} -> {'CONFIRMED' if ok else 'REJECTED'}")
         if not ok:
             print(out0[-400:], outa[-400:], out1[-400:])
             return 1
-        dst = f"/verif/seeded/{prop}-{n}"
+        dst = f"/verif/seeded/{prop}-{int(n) + offset}"
         os.makedirs(dst, exist_ok=True)
         shutil.copy(patch, os.path.join(dst, "patch.diff"))
         open(os.path.join(dst, "demo.py"), "w").write(open(demo).read())
